@@ -290,6 +290,19 @@ def run_check(eng, prop, tier, seed, runs=None, jobs=None, out_dir=None):
             if res['sig'] == sig:
                 print(f'KNOWN-FINDING: property={prop} {k["what"]} [signature {sig}; witness {wit}]')
                 known_seen.append(sig)
+    # witnesses of repaired findings are replayed as regression tests; a 'fixed' entry suppresses nothing
+    for k in known:
+        if k.get('status') == 'fixed' and k.get('witness'):
+            wpath = os.path.join(VERIF_ROOT, k['witness'])
+            try:
+                with open(wpath) as f:
+                    wplan = json.load(f)['plan']
+            except (OSError, ValueError, KeyError):
+                continue
+            o = guarded_run(eng, prop, wplan)
+            if 'harness_error' not in o and o['viol'] is not None and o['viol']['sig'] not in viols:
+                fp = o.get('final_plan', wplan)
+                viols[o['viol']['sig']] = (plan_size(fp), -1, fp, o['viol'], 1)
     rep_dir = out_dir or os.path.join(VERIF_ROOT, 'replays')
     os.makedirs(rep_dir, exist_ok=True)
     budget = 2000 if tier == 'quick' else 20000
@@ -316,7 +329,7 @@ def run_check(eng, prop, tier, seed, runs=None, jobs=None, out_dir=None):
                                    budget, same=eng.same_signature)
         out = guarded_run(eng, prop, mplan, keep_log=True)
         mviol = out['viol'] or viol
-        path = os.path.join(rep_dir, f'{prop}-s{seed}-r{idx}.json')
+        path = os.path.join(rep_dir, f'{prop}-s{seed}-r{idx if idx >= 0 else "witness"}.json')
         rep = {'property': prop, 'engine': eng.name, 'seed': seed, 'run_index': idx, 'tier': tier,
                'plan': out.get('final_plan', mplan),
                'violation': {'signature': mviol['sig'], 'message': mviol['msg']},
